@@ -111,6 +111,7 @@ def run_case(plan_factory, requests=(), decision="resume", *, fail_call=None, fa
         obs.docs, obs.doc_meta = list(lab.docs), doc_meta
         obs.trans = list(lab.trans)
         obs.trans_meta = list(lab.trans_meta)
+        obs.rewinds = list(lab.rewinds)
         obs.ledger = list(lab.ledger)
         obs.steps = lab.steps
         obs.tasks_unresolved = [r for r in obs.reqs if isinstance(r.get("out"), tuple) and r["out"][0] == "task"]
